@@ -167,8 +167,22 @@ def call_model(I, fn, args, kwargs):
         a, b = args
         return I.binop(ast.Mod(), a, b)
     if fn is np.vstack:
-        rows = list(args[0])
-        return ("__vstack__", [r if not isinstance(r, np.ndarray) else [pyscalar(x) for x in r] for r in rows])
+        rows = []
+        for r in list(args[0]):
+            if isinstance(r, tuple) and len(r) == 2 and r[0] == "__vstack__":
+                rows.extend(r[1])
+            elif isinstance(r, np.ndarray):
+                if r.ndim == 1:
+                    rows.append([pyscalar(x) for x in r])
+                else:
+                    rows.extend([[pyscalar(x) for x in rr] for rr in r])
+            elif isinstance(r, SymArray):
+                rows.append(list(r.items))
+            else:
+                rows.append(list(r))
+        if len({len(r) for r in rows}) > 1:
+            raise PyRaise(ValueError("all the input array dimensions except for the concatenation axis must match exactly"))
+        return ("__vstack__", rows)
     if fn is np.sqrt or fn is math.sqrt:
         (x,) = args
         if isinstance(x, FD):
